@@ -11,7 +11,7 @@
    Each printed record carries the world and the query grid (attributes x times x signer filters) that
    the replayer must ask on every query path; the expected answers are NOT printed - Trace_Claims
    recomputes them from the world when it validates the recorded replies. *)
-EXTENDS Claims, Json
+EXTENDS Claims, Json, SequencesExt
 
 CONSTANTS Mode, Depth, MinItems, QTimes
 VARIABLES mode, ended
@@ -53,9 +53,8 @@ GNext == SimPick \/ SimDo \/ BfsStep
 GSpec == GInit /\ [][GNext]_gvars
 
 ItemSeq == [i \in 1..Cardinality(world) |-> CHOOSE c \in world : c.id = i]
-SortedSeq(S) == LET n == Cardinality(S) IN
-                CHOOSE s \in [1..n -> S] : \A i, j \in 1..n : i < j => s[i] < s[j]
-StrSeq(S) == CHOOSE s \in [1..Cardinality(S) -> S] : \A i, j \in 1..Cardinality(S) : i # j => s[i] # s[j]
+SortedSeq(S) == SetToSortSeq(S, <)
+StrSeq(S) == SetToSeq(S)
 Emit == ended => PrintT(<<"WORLD", ToJson([items |-> ItemSeq, pn |-> PN, attrs |-> StrSeq(SAttrs),
                                            times |-> SortedSeq(QTimes), signers |-> <<0, 1, 2>>,
                                            vals |-> SortedSeq(SVals)])>>)
